@@ -118,6 +118,9 @@ pub trait DeserializeSeed<'de>: Sized {
     spec fn on_de(self, rem: Seq<u8>) -> (Result<Self::Value>, Seq<u8>);
     fn deserialize<F: Flavor<'de>>(self, d: &mut Deserializer<'de, F>) -> (r: Result<Self::Value>)
         ensures (r, final(d).flavor.rem()) == self.on_de(old(d).flavor.rem());
+    // D20: a variant index reaches the seed through serde's `u32::into_deserializer()`; modelled as a method receiving the u32
+    spec fn on_index(self, v: u32) -> Result<Self::Value>;
+    fn deserialize_index(self, v: u32) -> (r: Result<Self::Value>) ensures r == self.on_index(v);
 }
 
 pub open spec fn final_rem_ok(orig: Seq<u8>, now: Seq<u8>, i: int) -> bool {
@@ -250,6 +253,17 @@ UNIT = dict(
                extra=[(r"fields: &'static \[&'static str\]", "fields: &[&str]", 1, 1)]),
         method("deserialize_enum", "            (r, %s) == §V§.on_enum(%s)," % (NOW, ORIG),
                extra=[(r"_variants: &'static \[&'static str\]", "_variants: &[&str]", 1, 1)]),
+        dict(kind="fn", file=F, within=[r"^impl<'de, F: Flavor<'de>> serde::de::EnumAccess<'de> for &mut Deserializer<'de, F>$"], name="variant_seed",
+             qual="postcard::de::deserializer::<impl serde::de::EnumAccess for &mut Deserializer<F>>::variant_seed",
+             rewrites=[(r"(fn \w+[^(]*\(\s*)self\b", r"\1&mut self", 1, 1), (r"-> Result<\(V::Value, Self\)>", "-> Result<V::Value>", 1, 1), (r"Ok\(\((\w+), self\)\)", r"Ok(\1)", 1, 1),
+                       (r"DeserializeSeed::deserialize\((\w+), (\w+)\.into_deserializer\(\)\)", r"DeserializeSeed::deserialize_index(\1, \2)", 1, 1)],   # D20
+             sig="""        ensures
+            match dec_u32(%(o)s) {
+                DecRes::Ok(v, used) => r == §p1§.on_index(v) && final_rem_ok(%(o)s, %(n)s, used),
+                DecRes::End => r == Err::<V::Value, Error>(Error::DeserializeUnexpectedEnd),
+                DecRes::Bad => r == Err::<V::Value, Error>(Error::DeserializeBadVarint),
+            },   // @obl:C03.V.dekind.variant_seed""" % dict(o=ORIG, n=NOW),
+             obls=["C03.V.dekind.variant_seed"]),
         method("deserialize_any", "            r is Err,", oblp="C04.V.dekind."),
         method("deserialize_identifier", "            r is Err,", oblp="C04.V.dekind."),
         method("deserialize_ignored_any", "            r is Err,", oblp="C04.V.dekind."),
